@@ -79,7 +79,7 @@ func raceCases(what string, r *rng, n int) []string {
 		// a running future is cancelled, its body does not notice and completes: the body's final flag update and the
 		// cancel's are two writers of the same flags (the witnesses orchestrate exactly that; race reports are kept)
 		for i := 0; i < 3; i++ {
-			cs = append(cs, "wit readers-agree-across-cancel 1", "wit cancelled-stays-cancelled 1")
+			cs = append(cs, "wit readers-agree-across-cancel 1", "wit cancelled-stays-cancelled 1", "wit cancel-while-body-naps 40")
 		}
 	}
 	return cs
